@@ -1,6 +1,6 @@
 (* C02 - perfect reconstruction (line level).  Statements only. *)
 From Coq Require Import String.
-From PW Require Import Base.Ops Base.Sum Base.Sig Base.Tensor Model.Dwt Spec.Line Proofs.DwtNF Proofs.LineTheory Proofs.C01Proofs Proofs.C02Proofs Proofs.CircPR Proofs.C02ProofsPer Proofs.PywtProofs Gen.PywtTables.
+From PW Require Import Base.Ops Base.Sum Base.Sig Base.Tensor Model.Dwt Spec.Line Proofs.DwtNF Proofs.LineTheory Proofs.C01Proofs Proofs.C02Proofs Proofs.CircPR Proofs.C02ProofsPer Proofs.SfbNF Proofs.C02Proofs2D Proofs.Per2D Proofs.PywtProofs Gen.PywtTables.
 
 (* master identity: synthesis (window [ka,kb)) of the analysis of ANY signal on the line = the signal filtered by the
    kernel Pk built from the four filters; no hypothesis on the filters *)
@@ -95,6 +95,47 @@ Proof.
 Qed.
 Example C02_levels_ok_per_example : levels_ok_per 3 2 13.
 Proof. cbn [levels_ok_per]. unfold even_len. cbn. repeat split; lia. Qed.
+
+(* ---- two dimensions, separate row and column banks (the 4-tuple form), four non-periodization modes ---- *)
+(* recon2d x y: y has the batch/channel shape of x, one row/column more at most, and equals x on the extent of x *)
+Theorem C02_level_2d :
+  forall (R:Type) (Op:Ops R) (Rth:RingOk Op) (x:@ten R) Lr dr0 dr1 gr0 gr1 Lc dc0 dc1 gc0 gc1 mode,
+  2 <= Lr -> 2 <= Lc -> 1 <= tW x -> 1 <= tH x -> 0 < tC x -> level_ok2 mode Lr Lc (tH x) (tW x) ->
+  PRcond Op Lr dr0 dr1 gr0 gr1 -> PRcond Op Lc dc0 dc1 gc0 gc1 ->
+  is_ok (AFB2D_fwd Op x Lr (rev_filt Lr dr0) (rev_filt Lr dr1) Lc (rev_filt Lc dc0) (rev_filt Lc dc1) mode) (fun r =>
+    is_ok (SFB2D_fwd Op (fst r) (snd r) Lr gr0 gr1 Lc gc0 gc1 mode) (fun y =>
+      tN y = tN x /\ tC y = tC x /\ tH x <= tH y <= tH x + 1 /\ tW x <= tW y <= tW x + 1 /\
+      forall n c i j, 0 <= c < tC x -> 0 <= i < tH x -> 0 <= j < tW x -> tf y n c i j = tf x n c i j)).
+Proof. exact @pr_level_2d. Qed.
+Print Assumptions C02_level_2d.
+
+(* every J: DWTInverse (DWTForward x) = x on the extent, including the row and column unpad rules of the level loop *)
+Theorem C02_multilevel_2d :
+  forall (R:Type) (Op:Ops R) (Rth:RingOk Op) (J:nat) (x:@ten R) Lr dr0 dr1 gr0 gr1 Lc dc0 dc1 gc0 gc1 mode,
+  2 <= Lr -> 2 <= Lc -> 0 < tC x -> 1 <= tW x -> 1 <= tH x -> levels_ok2 J mode Lr Lc (tH x) (tW x) ->
+  PRcond Op Lr dr0 dr1 gr0 gr1 -> PRcond Op Lc dc0 dc1 gc0 gc1 ->
+  is_ok (DWTForward Op J x Lr (rev_filt Lr dr0) (rev_filt Lr dr1) Lc (rev_filt Lc dc0) (rev_filt Lc dc1) mode) (fun r =>
+    is_ok (DWTInverse Op (fst r) (map Some (snd r)) Lr gr0 gr1 Lc gc0 gc1 mode) (fun y =>
+      tN y = tN x /\ tC y = tC x /\ tH x <= tH y <= tH x + 1 /\ tW x <= tW y <= tW x + 1 /\
+      forall n c i j, 0 <= c < tC x -> 0 <= i < tH x -> 0 <= j < tW x -> tf y n c i j = tf x n c i j)).
+Proof. intros R Op Rth J. exact (pr_multilevel_2d Op Rth J). Qed.
+Print Assumptions C02_multilevel_2d.
+Example C02_levels_ok2_example : levels_ok2 3 M_SYMM 4 2 13 10.
+Proof. cbn [levels_ok2]. unfold level_ok2, level_ok, nonper_mode, M_SYMM, M_REFLECT, M_ZERO, M_PERIODIC. cbn. repeat split; try lia; try (left; reflexivity); try (right; left; reflexivity); intros E; discriminate E. Qed.
+
+(* two dimensions, periodization, every J, guard: filter length <= even length of both axes at every level *)
+Theorem C02_multilevel_2d_per :
+  forall (R:Type) (Op:Ops R) (Rth:RingOk Op) (J:nat) (x:@ten R) Lr dr0 dr1 gr0 gr1 Lc dc0 dc1 gc0 gc1,
+  2 <= Lr -> Lr mod 2 = 0 -> 2 <= Lc -> Lc mod 2 = 0 -> 0 < tC x -> 1 <= tW x -> 1 <= tH x -> levels_ok2_per J Lr Lc (tH x) (tW x) ->
+  PRcond Op Lr dr0 dr1 gr0 gr1 -> PRcond Op Lc dc0 dc1 gc0 gc1 ->
+  is_ok (DWTForward Op J x Lr (rev_filt Lr dr0) (rev_filt Lr dr1) Lc (rev_filt Lc dc0) (rev_filt Lc dc1) M_PER) (fun r =>
+    is_ok (DWTInverse Op (fst r) (map Some (snd r)) Lr gr0 gr1 Lc gc0 gc1 M_PER) (fun y =>
+      tN y = tN x /\ tC y = tC x /\ tH x <= tH y <= tH x + 1 /\ tW x <= tW y <= tW x + 1 /\
+      forall n c i j, 0 <= c < tC x -> 0 <= i < tH x -> 0 <= j < tW x -> tf y n c i j = tf x n c i j)).
+Proof. intros R Op Rth J. exact (pr_multilevel_2d_per Op Rth J). Qed.
+Print Assumptions C02_multilevel_2d_per.
+Example C02_levels_ok2_per_example : levels_ok2_per 2 4 2 13 10.
+Proof. cbn [levels_ok2_per]. unfold even_len. cbn. repeat split; lia. Qed.
 
 (* ---- filter side: all 106 PyWavelets banks (exact dyadic taps regenerated from the installed package) ---- *)
 (* l1 deviation of the reconstruction kernel from the unit impulse <= 2^-34 (dmey: 2^-7), both output parities *)
